@@ -117,6 +117,17 @@ class C20(Check):
         if W:
             raw_sets += [(W, [[(4, 0), (3, 0), (1, 40), (3, 0)], [(0, 0), (1, 20)]]),
                          (W, [[(4, 2), (3, 0), (1, 200)], [(0, 2), (3, 0), (1, 200)]])]
+        # damaged entries (payload byte flipped / declared CRC changed): a handle that decodes such an entry must get the
+        # checksum error it gets alone, whether or not another clone has read the same entry raw to its end before
+        pa = A.index(b"PK\x03\x04", 10) + 30 + 1 + 5          # inside the stored payload of entry 1
+        DA = A[:pa] + bytes([A[pa] ^ 0x40]) + A[pa + 1:]
+        cd3 = A.index(b"PK\x01\x02"); 
+        for _ in range(3):
+            cd3 = A.index(b"PK\x01\x02", cd3 + 4)            # central record of entry 3 (deflated)
+        DC = A[:cd3 + 16] + bytes([A[cd3 + 16] ^ 1]) + A[cd3 + 17:]
+        raw_sets += [(DA, [[(4, 1), (1, 1000), (1, 10)], [(0, 1), (1, 1000), (1, 10)]]),
+                     (DC, [[(4, 3), (1, 1000), (1, 10)], [(0, 3), (1, 1000), (1, 10)]]),
+                     (DA, [[(0, 1), (1, 1000), (1, 10)], [(0, 1), (1, 100), (1, 1000)]])]
         for data, scripts in raw_sets:
             alone = run_lines(exe, [line(data, None, [(0,) + s_ for s_ in sc]) for sc in scripts], shards=1)
             for sched in interleavings(scripts):
